@@ -378,9 +378,18 @@ class Translator:
             if isinstance(p, ast.Constant):
                 parts.append(E('strLit', p.value))
             elif isinstance(p, ast.FormattedValue):
-                if p.conversion != -1 or p.format_spec is not None:
-                    raise Unsupported('format spec')
-                parts.append(self.to_str(self.ev(m, p.value, env)))
+                if p.conversion != -1:
+                    raise Unsupported('format conversion')
+                v = self.ev(m, p.value, env)
+                if p.format_spec is not None:
+                    spec = p.format_spec
+                    lit = (len(spec.values) == 1 and isinstance(spec.values[0], ast.Constant)) and spec.values[0].value
+                    if lit == '#x' and is_expr(v):
+                        parts.append(E('hexOf', v))
+                        continue
+                    if lit not in ('', 'd', 's'):
+                        raise Unsupported('format spec')
+                parts.append(self.to_str(v))
             else:
                 raise Unsupported('fstring part')
         return self.cat_all(parts)
@@ -524,6 +533,18 @@ class Translator:
         raise Unsupported('call of ' + tag)
 
     def ev_join(self, m, sep, arg, env):
+        if isinstance(arg, (ast.GeneratorExp, ast.ListComp)) and len(arg.generators) == 1 \
+                and not arg.generators[0].ifs and isinstance(arg.generators[0].target, ast.Name):
+            var = arg.generators[0].target.id
+            seqv = self.ev(m, arg.generators[0].iter, env)
+            if is_expr(seqv):
+                elt = arg.elt
+                if isinstance(elt, ast.Attribute) and isinstance(elt.value, ast.Name) and elt.value.id == var \
+                        and elt.attr == 'name':
+                    return E('joinNames', sep, seqv)
+                if isinstance(elt, ast.Call) and isinstance(elt.func, ast.Name) and elt.func.id == 'hex' \
+                        and len(elt.args) == 1 and isinstance(elt.args[0], ast.Name) and elt.args[0].id == var:
+                    return E('joinHex', sep, seqv)
         # ' | '.join(map(lambda f: f.name, X))   /   ', '.join(map(hex, X))
         if isinstance(arg, ast.Call) and isinstance(arg.func, ast.Name) and arg.func.id == 'map' and len(arg.args) == 2:
             fn, seq = arg.args
